@@ -97,7 +97,7 @@ func (s *msys) Apply(op string) string {
 	return fmt.Sprint(s.p.Stats().PeerCount)
 }
 
-const nLookupIDs = 6
+const nLookupIDs = 4
 
 // lookupID: the MAC-shaped ids at the end of the id set.
 func (s *msys) lookupID(k int) string { return s.ids[30+k] }
@@ -161,11 +161,15 @@ func (s *msys) Check() []explore.Viol {
 		}
 	}
 	restore(fresh)
-	for _, id := range s.ids {
+	for k, id := range s.ids {
 		// routing under the current health view, and the whole fallback order behind it
 		if got, want := s.p.VerifC17HealthyOwner(id), fresh.VerifC17HealthyOwner(id); got != want {
 			s.v("agreement", "getHealthyOwner", "membership %q, unhealthy %q: this node routes %q to %q, a node freshly configured with the same membership and health view routes it to %q", m, un, id, got, want)
 			break
+		}
+		// (the walk is done for the lookup ids and a dozen others; plain routing above for every id)
+		if k >= 30+nLookupIDs+12 || (k >= 12 && k < 30) {
+			continue
 		}
 		if got, want := fallbackWalk(s.p, s.self, id, restore), fallbackWalk(fresh, s.self, id, restore); strings.Join(got, ">") != strings.Join(want, ">") {
 			s.v("ranking", "getHealthyOwner", "membership %q, unhealthy %q: marking each chosen peer unhealthy in turn, this node routes %q along %q, a freshly configured node along %q", m, un, id, got, want)
